@@ -14,16 +14,43 @@ Subset (everything else → `Untranslatable`):
                statement of an `if` body directly inside a loop body) | return e (function level, or last statement
                of a function-level `if` body) | d[k] = e on a configured record list (an output column) | docstrings
   expressions  int / bool / str constants, names, + - * // % (// and % by a positive literal), >> k, & (2^k - 1),
-               and / or / not on booleans, comparisons, `a if c else b`, max, min, len, ord, list displays,
-               f-strings of str / int pieces, `{...}.get(k, default)` on a dict display, configured attribute
-               paths and record fields
-  types        Int (Python int, unbounded), Bool, Str = List Nat (code points), List Int, configured records
+               and / or on booleans (value context), not, comparisons, `x is None`, `x is not None`,
+               `a if c else b`, max, min, len, ord, list displays, f-strings of str / int pieces,
+               `{...}.get(k, default)` on a dict display, configured attribute paths, record fields (`r["f"]`,
+               `obj.f`), `isinstance(x, list)` decided by the static type of `x`
+  conditions   (`if` / conditional-expression tests, operand of `not`): truthiness BY STATIC TYPE, `and` / `or` / `not`
+               of conditions, narrowing of `Option` paths
+  types        Int (Python int, unbounded), Bool, Str = List Nat (code points), List T, Option T (a value that may be
+               `None`), configured records (objects of configured classes)
 
 Python semantics relied on: ints are unbounded (Lean `Int`); `//` and `%` by a positive literal are floor division
 and its remainder (= Lean's `/` and `%` on `Int` for a positive divisor); `x >> k` = ⌊x / 2^k⌋ and `x & (2^k-1)` =
-x mod 2^k for every int; `and`/`or`/`not` are only accepted on expressions typed Bool, so truthiness never enters;
-every variable is assigned before it is read on every path (checked), so the defaults of the state record are
-never observed.
+x mod 2^k for every int; every variable is assigned before it is read on every path (checked), so the defaults of the
+state record are never observed.
+
+Truthiness.  In VALUE context `a and b` / `a or b` return one of their operands, so they are only accepted on
+expressions typed Bool.  In CONDITION context only `bool(e)` matters, and it is determined by the static type of `e`:
+`bool(b) = b` for a bool; `bool(i) = (i != 0)` for an int; `bool(s) = (len(s) > 0)` for a str / list / any sequence;
+`bool(None) = False`; `bool(obj) = True` for an instance of a class that defines neither `__bool__` nor `__len__`
+(configured record classes are imported and checked for that on every run, `classes=` in the configuration, together
+with the declared type of every field the translation reads); an `Option T` is `None` or a `T`.  `bool(a and b) =
+bool(a) and bool(b)`, `bool(a or b) = bool(a) or bool(b)`, `bool(not a) = not bool(a)`; `b` is evaluated only when
+needed, which cannot be observed because every translated expression is total and free of effects — with ONE
+exception, attribute access on `None`, excluded by narrowing:
+
+Narrowing.  A *path* is an expression whose value cannot change during the call: a configured input path, a parameter
+or loop variable (assignment to one is rejected), a field of a path.  A field `P.f` of a path `P : Option T` is only
+translatable where `P` is known not to be `None`: in `b` of `P and b` / `P is not None and b` (→ `match P with | none
+=> false | some v => …b[P := v]`), in the body of `if P:` / `if P is not None:`, in the `else` branch and — when the body
+ends in `continue` / `return` — in the statements after `if not P:` / `if P is None:` (→ a `match` whose `some v` arm
+is the narrowed branch).  `if P:` on a list path whose body reads `P[0]` becomes `match P with | [] => … | v :: _ => …`
+with `P[0] := v` (no other subscript by a number is translated, so `IndexError` cannot arise).  Narrowing facts are
+dropped at loop boundaries.
+
+`isinstance(x, list)` is decided statically: `x : List _` is a Python `list` → True; an int, bool, str, `None`, or a
+record object is not → False.  An `if` (or `if not`) on such a test is translated as its live branch only — the other
+branch is dead for every input of the declared type and need not be typeable.  A union-typed input (`rtf_column_header`:
+flat list or list of lists) is handled by translating the function once per alternative (two `TARGETS` entries).
 """
 from __future__ import annotations
 
@@ -48,6 +75,35 @@ class Untranslatable(Exception):
 
 
 # ----------------------------------------------------------------------------------------- configuration
+
+def _additional_rows(name: str, header_type: str, what: str) -> dict:
+    """`calculate_additional_rows_per_page` reads four facts of the (per-section) document.  `rtf_column_header` has a
+    union type — a flat list `[header | None, …]` or a nested list `[[header | None, …], …]` — and the function tells
+    them apart with `isinstance(document.rtf_column_header[0], list)`; it is translated once per alternative, the
+    `isinstance` being decided by the declared element type (DESIGN 4.1a)."""
+    return dict(
+        name=name, file="services/document_service.py", cls="RTFDocumentService",
+        func="calculate_additional_rows_per_page",
+        doc="RTFDocumentService.calculate_additional_rows_per_page: the rows reserved on every page, for a document "
+            f"whose `rtf_column_header` is {what}.\n"
+            "Inputs (the only things the function reads): `document.rtf_body.subline_by` (`Sequence[str] | None`),\n"
+            "`document.rtf_column_header`, `document.rtf_footnote`, `document.rtf_source` (`None` or a component whose\n"
+            "`text` is `Sequence[str] | None`; a `str` is a sequence of its characters, only its emptiness is read).",
+        records={"Comp": [("text", "Option (List Str)")]},
+        # the Python classes the record stands for: `text` must be declared `Sequence[str] | None` and instances must
+        # be truthy (no `__bool__` / `__len__`) — checked against the imported classes on every run
+        classes=[("rtflite.input", c, {"text": "collections.abc.Sequence[str] | None"})
+                 for c in ("RTFColumnHeader", "RTFFootnote", "RTFSource")],
+        params=[("subline_by", "Option (List Str)"), ("rtf_column_header", header_type),
+                ("rtf_footnote", "Option Comp"), ("rtf_source", "Option Comp")],
+        skip_params=["self", "document"],
+        env={"document.rtf_body.subline_by": ("subline_by", "Option (List Str)"),
+             "document.rtf_column_header": ("rtf_column_header", header_type),
+             "document.rtf_footnote": ("rtf_footnote", "Option Comp"),
+             "document.rtf_source": ("rtf_source", "Option Comp")},
+        alias={}, outputs={}, returns={}, ret_type="Int",
+    )
+
 
 TARGETS = [
     dict(
@@ -88,6 +144,9 @@ TARGETS = [
         records={}, params=[("text", "Str")], skip_params=[], env={}, alias={}, outputs={}, returns={},
         ret_type="Str",
     ),
+    _additional_rows("AdditionalRowsFlat", "List (Option Comp)", "a flat list `[header | None, …]`"),
+    _additional_rows("AdditionalRowsNested", "List (List (Option Comp))",
+                     "a nested list `[[header | None, …], …]` (one Python list per section)"),
 ]
 
 
@@ -110,12 +169,15 @@ class Fn:
         self.fresh = 0
         self.loops: list[str] = []               # emitted loop-body definitions, innermost first
         self.loopvars: list[tuple[str, str]] = []     # enclosing loop variables (lean name, lean type)
+        self.narrow: dict[str, tuple[str, str]] = {}  # source path → (lean term, type) known on the current path
         for out, ty in cfg["outputs"].items():
             self.vars["out_" + out] = f"List {ty}"
 
     # ---- expressions: returns (lean, type)
     def expr(self, e, defined) -> tuple[str, str]:
         src = ast.unparse(e)
+        if src in self.narrow:
+            return self.narrow[src]
         if src in self.cfg["env"]:
             return self.cfg["env"][src]
         if isinstance(e, ast.Constant):
@@ -161,16 +223,15 @@ class Fn:
                 return f"({a} ++ [{b}])", "Str"
             raise Untranslatable(f"binary operation {src} on {ta}, {tb}")
         if isinstance(e, ast.BoolOp):
+            # value context: `a and b` / `a or b` return one of their operands, so they are only accepted when every
+            # operand is a Bool (then the value is the conjunction / disjunction).  Condition context: `cond`.
             parts = [self.expr(v, defined) for v in e.values]
             if any(t != "Bool" for _, t in parts):
-                raise Untranslatable(f"and/or on non-boolean operands in {src}")
+                raise Untranslatable(f"and/or on non-boolean operands in value context: {src}")
             op = " && " if isinstance(e.op, ast.And) else " || "
             return "(" + op.join(p for p, _ in parts) + ")", "Bool"
         if isinstance(e, ast.UnaryOp) and isinstance(e.op, ast.Not):
-            a, ta = self.expr(e.operand, defined)
-            if ta != "Bool":
-                raise Untranslatable(f"not on a non-boolean in {src}")
-            return f"(!{a})", "Bool"
+            return f"(!{self.cond(e.operand, defined)})", "Bool"
         if isinstance(e, ast.UnaryOp) and isinstance(e.op, ast.USub):
             a, ta = self.expr(e.operand, defined)
             if ta != "Int":
@@ -180,6 +241,15 @@ class Fn:
             if len(e.ops) != 1:
                 raise Untranslatable(f"chained comparison {src}")
             a, ta = self.expr(e.left, defined)
+            if isinstance(e.ops[0], (ast.Is, ast.IsNot)):
+                rhs = e.comparators[0]
+                if not (isinstance(rhs, ast.Constant) and rhs.value is None):
+                    raise Untranslatable(f"identity test {src} against something other than None")
+                if t_arg(ta, "Option") is not None:
+                    return f"({a}).{'isNone' if isinstance(e.ops[0], ast.Is) else 'isSome'}", "Bool"
+                if ta in ("Int", "Bool", "Str", "Char") or t_arg(ta, "List") is not None or ta in self.cfg["records"]:
+                    return ("false" if isinstance(e.ops[0], ast.Is) else "true"), "Bool"
+                raise Untranslatable(f"identity test {src} on {ta}")
             b, tb = self.expr(e.comparators[0], defined)
             ta, tb = ("Int" if t == "Char" else t for t in (ta, tb))
             if ta != tb:
@@ -191,7 +261,7 @@ class Fn:
                 raise Untranslatable(f"ordering on {ta} in {src}")
             return f"(decide ({a} {ops[type(e.ops[0])]} {b}))", "Bool"
         if isinstance(e, ast.IfExp):
-            c, tc = self.expr(e.test, defined)
+            c, tc = self.cond(e.test, defined), "Bool"
             a, ta = self.expr(e.body, defined)
             b, tb = self.expr(e.orelse, defined)
             if tc != "Bool" or ta != tb:
@@ -233,8 +303,10 @@ class Fn:
                     return f"(Int.ofNat {a})", "Int"
             if isinstance(f, ast.Name) and f.id == "len" and len(e.args) == 1:
                 a, ta = self.expr(e.args[0], defined)
-                if ta == "Str" or ta.startswith("List "):
+                if ta == "Str" or t_arg(ta, "List") is not None:
                     return f"(Int.ofNat {a}.length)", "Int"
+            if isinstance(f, ast.Name) and f.id == "isinstance" and len(e.args) == 2 and not e.keywords:
+                return ("true" if self.static_isinstance(e, defined) else "false"), "Bool"
             if isinstance(f, ast.Attribute) and f.attr == "get" and isinstance(f.value, ast.Name) and len(e.args) == 2:
                 # d.get(k, default) where d is a local bound to a dict display
                 d = self.bound.get("dict:" + f.value.id)
@@ -246,7 +318,120 @@ class Fn:
             fields = dict(self.cfg["records"].get(ta, []))
             if e.slice.value in fields:
                 return f"{a}.{e.slice.value}", fields[e.slice.value]
+        if isinstance(e, ast.Attribute):
+            # field of a configured record (an object attribute); `None.attr` cannot arise: an Option must have been
+            # narrowed (`x and x.attr`, `if x:`, `x is not None and …`) before a field is read
+            a, ta = self.expr(e.value, defined)
+            fields = dict(self.cfg["records"].get(ta, []))
+            if e.attr in fields:
+                return f"{a}.{e.attr}", fields[e.attr]
+            raise Untranslatable(f"attribute {e.attr} of a value of type {ta} in {src}")
         raise Untranslatable(f"expression {src}")
+
+    # ---- conditions (`if` tests, operands of `not`, tests of conditional expressions): Python truthiness BY TYPE
+    def truthy(self, term: str, ty: str) -> str:
+        """`bool(v)` for a value of the given static type: a bool is itself, an int is `≠ 0`, a str / list is
+        `len > 0`, `None` is false, an instance of a configured record class (no `__bool__`, no `__len__`: checked
+        against the imported class) is true"""
+        if ty == "Bool":
+            return term
+        if ty == "Int":
+            return f"(decide ({term} ≠ (0 : Int)))"
+        if ty == "Str" or t_arg(ty, "List") is not None:
+            return f"(!({term}).isEmpty)"
+        if ty in self.cfg["records"]:
+            return "true"
+        inner = t_arg(ty, "Option")
+        if inner is not None:
+            v = self.binder()
+            return f"(match {term} with | none => false | some {v} => {self.truthy(v, inner)})"
+        raise Untranslatable(f"truthiness of a value of type {ty}")
+
+    def binder(self) -> str:
+        self.nbind = getattr(self, "nbind", 0) + 1
+        return f"v{self.nbind}"
+
+    def path_key(self, e):
+        """`ast.unparse(e)` when `e` is a *path*: an expression whose value cannot change while the function runs
+        (a configured input path, a parameter or loop variable, a field of a path, or something already narrowed)"""
+        src = ast.unparse(e)
+        if src in self.narrow or src in self.cfg["env"]:
+            return src
+        if isinstance(e, ast.Name) and e.id not in self.vars and (e.id in self.bound or e.id in self.params):
+            return src
+        if isinstance(e, ast.Attribute) and self.path_key(e.value) is not None:
+            return src
+        return None
+
+    def option_test(self, e, defined):
+        """`P` or `P is not None` for a path `P` of type `Option T` → (scrutinee, T, key, tests_truthiness)"""
+        bare = e
+        only_none = False
+        if isinstance(e, ast.Compare) and len(e.ops) == 1 and isinstance(e.ops[0], ast.IsNot) and \
+                isinstance(e.comparators[0], ast.Constant) and e.comparators[0].value is None:
+            bare, only_none = e.left, True
+        key = self.path_key(bare)
+        if key is None:
+            return None
+        term, ty = self.expr(bare, defined)
+        inner = t_arg(ty, "Option")
+        if inner is None:
+            return None
+        return term, inner, key, not only_none
+
+    def cond(self, e, defined) -> str:
+        """a Bool term equal to `bool(e)`.  `a and b`: `bool(a and b) = bool(a) && bool(b)`, `b` is evaluated only
+        when `a` is truthy, and inside `b` a path that `a` has shown to be not-None has its narrowed type."""
+        if isinstance(e, ast.BoolOp) and isinstance(e.op, ast.And):
+            if not any(self.option_test(v, defined) for v in e.values[:-1]):
+                try:
+                    return self.expr(e, defined)[0]      # all operands Bool: the plain conjunction
+                except Untranslatable:
+                    pass
+            return self.cond_and(list(e.values), defined)
+        if isinstance(e, ast.BoolOp) and isinstance(e.op, ast.Or):
+            return "(" + " || ".join(self.cond(v, defined) for v in e.values) + ")"
+        if isinstance(e, ast.UnaryOp) and isinstance(e.op, ast.Not):
+            return f"(!{self.cond(e.operand, defined)})"
+        v, t = self.expr(e, defined)
+        return self.truthy(v, t)
+
+    def cond_and(self, values, defined) -> str:
+        first, rest = values[0], values[1:]
+        if not rest:
+            return self.cond(first, defined)
+        ot = self.option_test(first, defined)
+        if ot is None:
+            return f"({self.cond(first, defined)} && {self.cond_and(rest, defined)})"
+        term, inner, key, truthiness = ot
+        v = self.binder()
+        saved = dict(self.narrow)
+        self.narrow[key] = (v, inner)
+        try:
+            r = self.cond_and(rest, defined)
+        finally:
+            self.narrow = saved
+        tv = self.truthy(v, inner) if truthiness else "true"
+        body = r if tv == "true" else f"({tv} && {r})"
+        return f"(match {term} with | none => false | some {v} => {body})"
+
+    def static_isinstance(self, e: ast.Call, defined) -> bool:
+        """`isinstance(x, list)` decided by the static type of `x` (`x` must be translatable, i.e. evaluating it
+        cannot raise): a `List` is a Python list, nothing else is"""
+        x, cls = e.args
+        if not (isinstance(cls, ast.Name) and cls.id == "list"):
+            raise Untranslatable(f"isinstance against {ast.unparse(cls)}")
+        _, ty = self.expr(x, defined)
+        while t_arg(ty, "Option") is not None:
+            inner = t_arg(ty, "Option")
+            if t_arg(inner, "List") is not None:
+                raise Untranslatable(f"isinstance(…, list) on a value of type {ty} is not decided by its type")
+            ty = inner
+        if t_arg(ty, "List") is not None:
+            return True
+        if ty in ("Int", "Bool", "Str", "Char") or ty in self.cfg["records"]:
+            return False
+        raise Untranslatable(f"isinstance(…, list) on a value of type {ty}")
 
     def dict_get(self, d: ast.Dict, key, default, defined):
         k, tk = self.expr(key, defined)
@@ -263,6 +448,39 @@ class Fn:
         if len(set(keys)) != len(keys):
             raise Untranslatable("dict display with a repeated key")
         return term, td
+
+    def test(self, st: ast.If, defined) -> Test:
+        e = st.test
+        negated = False
+        pos = e
+        if isinstance(e, ast.UnaryOp) and isinstance(e.op, ast.Not):
+            pos, negated = e.operand, True                       # `not P`
+        elif isinstance(e, ast.Compare) and len(e.ops) == 1 and isinstance(e.ops[0], ast.Is):
+            pos, negated = ast.Compare(left=e.left, ops=[ast.IsNot()], comparators=e.comparators), True   # `P is None`
+        ot = self.option_test(pos, defined)
+        if ot is not None:
+            term, inner, key, truthiness = ot
+            v = self.binder()
+            tv = self.truthy(v, inner) if truthiness else "true"
+            return Test("option", c=None if tv == "true" else tv, scrut=term, pat=f"some {v}",
+                        narrow={key: (v, inner)}, negated=negated)
+        key = self.path_key(e)
+        if key is not None:
+            term, ty = self.expr(e, defined)
+            elt = t_arg(ty, "List")
+            # `if P:` on a list path whose body reads `P[0]`: the head is bound by the match
+            if elt is not None and any(key + "[0]" in ast.unparse(x) for x in st.body):
+                v = self.binder()
+                return Test("list", scrut=term, pat=f"{v} :: _", narrow={key + "[0]": (v, elt)})
+        return Test("bool", c=self.cond(e, defined))
+
+    def narrowed(self, test: Test, thunk, branch="then"):
+        saved = dict(self.narrow)
+        self.narrow.update(test.narrow if branch == "then" else test.narrow_else)
+        try:
+            return thunk()
+        finally:
+            self.narrow = saved
 
     # ---- statements.  `block` returns a Lean term of the function's *state* type with `s` free;
     # `defined` is the set of variables assigned on every path so far.  `k` is the continuation (python statements
@@ -291,6 +509,8 @@ class Fn:
                 self.bound[tgt.id] = self.cfg["env"][src]
                 return self.block(rest, defined, in_loop, ind)
             if isinstance(tgt, ast.Name):
+                if tgt.id in self.bound or (tgt.id in self.params and tgt.id not in self.vars):
+                    raise Untranslatable(f"assignment to the parameter / loop variable {tgt.id}")
                 v, ty = self.expr(st.value, defined)
                 self.declare(tgt.id, ty)
                 term, d2, kind = self.block(rest, defined | {tgt.id}, in_loop, ind)
@@ -309,28 +529,36 @@ class Fn:
                                                                    op=st.op, right=st.value), lineno=st.lineno)
             return self.block([new] + rest, defined, in_loop, ind)
         if isinstance(st, ast.If):
-            c, tc = self.expr(st.test, defined)
-            if tc != "Bool":
-                raise Untranslatable(f"condition {ast.unparse(st.test)} is not boolean (truthiness is not translated)")
             body, orelse = list(st.body), list(st.orelse)
+            t0, flip = st.test, False
+            if isinstance(t0, ast.UnaryOp) and isinstance(t0.op, ast.Not):
+                t0, flip = t0.operand, True
+            if isinstance(t0, ast.Call) and isinstance(t0.func, ast.Name) and t0.func.id == "isinstance":
+                # a test decided by the static type of its argument: only the branch that can run is translated (the
+                # other one is dead for every input of the declared type and need not be typeable)
+                live = body if self.static_isinstance(t0, defined) != flip else orelse
+                return self.block(live + rest, defined, in_loop, ind)
+            test = self.test(st, defined)
             ends_continue = in_loop and body and isinstance(body[-1], ast.Continue)
             ends_return = (not in_loop) and body and isinstance(body[-1], ast.Return)
             if ends_continue:
-                a, _, _ = self.block(body[:-1], defined, in_loop, ind + "    ")
-                b, d2, kind = self.block(orelse + rest, defined, in_loop, ind + "    ")
-                return f"{ind}if {c} then\n{a}\n{ind}else\n{b}", d2, kind
+                a, _, _ = self.narrowed(test, lambda: self.block(body[:-1], defined, in_loop, ind + "    "))
+                b, d2, kind = self.narrowed(test, lambda: self.block(orelse + rest, defined, in_loop, ind + "    "),
+                                            "else")
+                return test.wrap(a, b, ind), d2, kind
             if ends_return:
-                a, _, _ = self.block(body, defined, in_loop, ind + "    ")
-                b, d2, kind = self.block(orelse + rest, defined, in_loop, ind + "    ")
+                a, _, _ = self.narrowed(test, lambda: self.block(body, defined, in_loop, ind + "    "))
+                b, d2, kind = self.narrowed(test, lambda: self.block(orelse + rest, defined, in_loop, ind + "    "),
+                                            "else")
                 if kind != "return":
                     raise Untranslatable("a path reaches the end of the function without a return")
-                return f"{ind}if {c} then\n{a}\n{ind}else\n{b}", d2, "return"
-            a, da, ka = self.block(body, defined, in_loop, ind + "    ")
-            b, db, kb = self.block(orelse, defined, in_loop, ind + "    ")
+                return test.wrap(a, b, ind), d2, "return"
+            a, da, ka = self.narrowed(test, lambda: self.block(body, defined, in_loop, ind + "    "))
+            b, db, kb = self.narrowed(test, lambda: self.block(orelse, defined, in_loop, ind + "    "), "else")
             if ka != "fall" or kb != "fall":
                 raise Untranslatable("return / continue in the middle of a branch")
             term, d2, kind = self.block(rest, da & db, in_loop, ind)
-            return f"{ind}let s :=\n{ind}  if {c} then\n{a}\n{ind}  else\n{b}\n{term}", d2, kind
+            return f"{ind}let s :=\n{test.wrap(a, b, ind + '  ')}\n{term}", d2, kind
         if isinstance(st, ast.For) and not st.orelse:
             it = st.iter
             self.fresh += 1
@@ -340,9 +568,9 @@ class Fn:
             if isinstance(it, ast.Call) and isinstance(it.func, ast.Name) and it.func.id == "enumerate" and \
                     len(it.args) == 1 and isinstance(st.target, ast.Tuple) and len(st.target.elts) == 2:
                 xs, txs = self.expr(it.args[0], defined)
-                if not txs.startswith("List "):
+                elt = t_arg(txs, "List")
+                if elt is None:
                     raise Untranslatable(f"enumerate over {txs}")
-                elt = txs[5:]
                 i, v = (t.id for t in st.target.elts)
                 self.bound[i] = (f"(Int.ofNat {x}.2)", "Int")
                 self.bound[v] = (f"{x}.1", elt)
@@ -352,8 +580,8 @@ class Fn:
                 xs, txs = self.expr(it, defined)
                 if txs == "Str":
                     elt = "Char"
-                elif txs.startswith("List "):
-                    elt = txs[5:]
+                elif t_arg(txs, "List") is not None:
+                    elt = t_arg(txs, "List")
                 else:
                     raise Untranslatable(f"loop over {txs}")
                 self.bound[st.target.id] = (x, elt)
@@ -362,7 +590,9 @@ class Fn:
                 raise Untranslatable(f"loop header {ast.unparse(st.target)} in {ast.unparse(it)}")
             outer = list(self.loopvars)
             self.loopvars.append((x, xty))
+            saved_narrow, self.narrow = self.narrow, {}     # match binders are not in scope of the loop definition
             body, dbody, kind = self.block(list(st.body), defined, True, "  ")
+            self.narrow = saved_narrow
             self.loopvars.pop()
             if kind != "fall":
                 raise Untranslatable("return inside a loop")
@@ -388,7 +618,53 @@ class Fn:
         raise Untranslatable(f"statement {ast.unparse(st).splitlines()[0]}")
 
 
+class Test:
+    """an `if` test: a Bool term, or a `match` on a path of type Option / List that narrows the path in the body"""
+
+    def __init__(self, kind, c=None, scrut=None, pat=None, narrow=None, negated=False):
+        self.kind, self.c, self.scrut, self.pat, self.negated = kind, c, scrut, pat, negated
+        # facts known in the `then` branch / in the `else` branch (and, after a guard that leaves, in what follows)
+        self.narrow, self.narrow_else = ({}, narrow or {}) if negated else (narrow or {}, {})
+
+    def wrap(self, a: str, b: str, ind: str) -> str:
+        """the Lean term `if test then a else b` (`a`, `b` already indented deeper than `ind`)"""
+        if self.kind == "bool":
+            return f"{ind}if {self.c} then\n{a}\n{ind}else\n{b}"
+        if self.negated:             # `if P is None:` / `if not P:` — the roles of the branches are exchanged
+            a, b = b, a
+        if self.c is not None:       # Option whose content has a truthiness of its own
+            a = (f"{ind}    if {self.c} then\n{textwrap.indent(a, '    ')}\n{ind}    else\n"
+                 f"{textwrap.indent(b, '    ')}")
+        empty = "none" if self.kind == "option" else "[]"
+        return f"{ind}(match {self.scrut} with\n{ind}| {empty} =>\n{b}\n{ind}| {self.pat} =>\n{a})"
+
+
+def t_app(ctor: str, arg: str) -> str:
+    return f"{ctor} {arg}" if " " not in arg else f"{ctor} ({arg})"
+
+
+def t_arg(t: str, ctor: str):
+    """the argument of the type application `ctor X` (None when `t` is not one)"""
+    if not t.startswith(ctor + " "):
+        return None
+    inner = t[len(ctor) + 1:].strip()
+    if inner.startswith("("):
+        depth = 0
+        for i, ch in enumerate(inner):
+            depth += ch == "("
+            depth -= ch == ")"
+            if depth == 0:
+                break
+        if i == len(inner) - 1:
+            inner = inner[1:-1].strip()
+    return inner
+
+
 def lean_type(t: str) -> str:
+    for ctor in ("List", "Option"):
+        a = t_arg(t, ctor)
+        if a is not None:
+            return t_app(ctor, lean_type(a))
     return {"Str": "List Nat", "Char": "Nat"}.get(t, t)
 
 
@@ -417,8 +693,25 @@ def record_fields(file: str, cls: str):
     raise Untranslatable(f"class {cls} with int / bool fields not found in {file}")
 
 
+def check_classes(cfg):
+    """the configured record types against the imported classes: declared field types, default truthiness"""
+    import importlib
+
+    for mod, cls, fields in cfg.get("classes", []):
+        try:
+            c = getattr(importlib.import_module(mod), cls)
+            got = {f: str(c.model_fields[f].annotation) for f in fields}
+        except Exception as e:  # noqa: BLE001
+            raise Untranslatable(f"class {mod}.{cls}: {type(e).__name__}: {e}") from e
+        if got != fields:
+            raise Untranslatable(f"class {mod}.{cls} declares {got}, the translation assumes {fields}")
+        if any(hasattr(c, m) for m in ("__bool__", "__len__")):
+            raise Untranslatable(f"class {mod}.{cls} defines its own truthiness")
+
+
 def translate(cfg) -> str:
     cfg = dict(cfg, records=dict(cfg["records"]))
+    check_classes(cfg)
     for rn, (file, cls) in (cfg.get("records_from") or {}).items():
         cfg["records"][rn] = record_fields(file, cls)
     node = find_function(cfg)
